@@ -2,7 +2,13 @@
    Property theorems only; each is closed by [exact] of a lemma of Proofs/FramingProofs.v or
    Proofs/WindowProofs.v.  DEFLATE is not modelled: [deflate]/[inflate] are universally
    quantified functions and the round trip [inflate d (deflate l d m) = (m, true)] is an
-   explicit premise (named inflate_deflate in DESIGN section 8). *)
+   explicit premise (named inflate_deflate in DESIGN section 8).
+   Messages are VALUES in the model: what Read returns and what Write was given share nothing with
+   the dictionaries or with any later message (no aliasing of the caller's buffers).  For the Go
+   code this is a separate obligation, tied by the harnesses' caller discipline: every buffer
+   passed to Write is overwritten as soon as Write returns, and every message returned by Read is
+   compared at once and then either overwritten over its whole capacity or retained and compared
+   again at the end of the case (h-transport, h-quicfake). *)
 From Coq Require Import List NArith Bool Arith.
 From Iscp Require Import Lib.ListMap Lib.Bytes Model.Segment Model.Framing Model.Window
   Proofs.FramingProofs Proofs.WindowProofs.
